@@ -192,6 +192,7 @@ func runC09(c *an.Ctx) {
 	ruleQ2(c, quote)
 	ruleQ5(c)
 	ruleQ6(c)
+	ruleQ7(c)
 }
 
 func fieldOwner(p *an.Prog, f *types.Var) string {
